@@ -82,6 +82,9 @@ type State struct {
 	defs    map[int]*seqDef // pending definitional seqEq markers
 	definable map[int]bool
 	reads   []streamRead
+	ghostCells map[int]Value
+	guardSnaps map[int]*MapSnap // content of guarded maps right after the last lock acquisition
+	aliasOK map[int]bool // fresh objects handed to the current callee: its results may alias them
 	evBase  int // event builtins see st.events[evBase:]
 	opaque  int // !=0: event builtins refer to the (invisible) trace of callee activation #opaque
 }
@@ -144,6 +147,8 @@ func (st *State) clone() *State {
 	}
 	n.trail = append([]string{}, st.trail...)
 	n.reads = st.reads
+	n.ghostCells = st.ghostCells
+	n.guardSnaps = st.guardSnaps
 	if st.defs != nil {
 		n.defs = map[int]*seqDef{}
 		for k, v := range st.defs {
@@ -225,6 +230,9 @@ type Machine struct {
 	ctxParent map[int]*Iface
 	runeSrc   map[int]*runeInfo
 	refute    bool
+	anteCover map[string][][]*Term
+	anteOrder []string
+	anteTags  map[string][]string
 	debug     bool
 }
 
@@ -329,7 +337,10 @@ func (m *Machine) isElemMem(p *Ptr) bool { return strings.HasPrefix(p.Mem, "elem
 
 func (m *Machine) Load(st *State, p *Ptr) Value {
 	if isSeqType(p.Elem) {
-		panic(unsupported("seq value in memory"))
+		if v, ok := st.ghostCells[p.Ref.id]; ok && p.Idx == nil && p.Path == "" {
+			return v
+		}
+		panic(unsupported("ghost value (seq/msnap) in memory"))
 	}
 	ls := m.ptrLeaves(p)
 	terms := make([]*Term, len(ls))
@@ -356,6 +367,15 @@ func (m *Machine) Load(st *State, p *Ptr) Value {
 func (m *Machine) Store(st *State, p *Ptr, v Value) {
 	if st.pure && !m.isFreshRef(st, p.Ref) {
 		panic(unsupported("store to pre-existing memory in pure (ghost) code"))
+	}
+	if isSeqType(p.Elem) && p.Idx == nil && p.Path == "" {
+		nc := make(map[int]Value, len(st.ghostCells)+1)
+		for k, x := range st.ghostCells {
+			nc[k] = x
+		}
+		nc[p.Ref.id] = v
+		st.ghostCells = nc
+		return
 	}
 	ls := m.ptrLeaves(p)
 	terms := m.ts.Flatten(p.Elem, v)
@@ -537,6 +557,10 @@ func (m *Machine) Alloc(st *State, t types.Type, site string) *Ptr {
 		return &Ptr{Mem: mem, Ref: r, Elem: t}
 	}
 	mem := m.ts.MemFor(t)
+	if isSeqType(t) {
+		r := m.newRef(st, nil, mem, false, site)
+		return &Ptr{Mem: mem, Ref: r, Elem: t}
+	}
 	r := m.newRef(st, t, mem, false, site)
 	for _, l := range m.ts.Leaves(t) {
 		name := leafName(mem, l.path)
@@ -728,7 +752,7 @@ func (m *Machine) assumeRef(st *State, r *Term) {
 	hi := new(big.Int).Add(freshBase, big.NewInt(int64(m.ctx.nfresh+1)))
 	conj := []*Term{m.ctx.ILe(m.ctx.Int(0), r), m.ctx.ILt(r, m.ctx.IntBig(hi))}
 	for _, f := range st.fresh {
-		if !f.escaped {
+		if !f.escaped && !st.aliasOK[f.ref.id] {
 			conj = append(conj, m.ctx.Neq(r, f.ref))
 		}
 	}
